@@ -474,7 +474,7 @@ def gen_specs(rng, tier):
   #     first layer feeding a second one (attribute and separate layer), and as KERNEL quantizer; the source reaches 7.875 so
   #     that every level is emitted, and ONE-HOT inputs (a single element on) expose each single product w * level.
   r1w = ["fixed40", "fixed", "po2_4", "fixed40", "ternary", "fixed", "fixed40", "po2"]
-  k = int(rng.integers(0, 4))
+  k = off                 # (no further draw here: the models of the older streams keep their per-seed weights / shapes)
   for i, integer in enumerate([0, 2, 3, 1, 0, 2, 0, 2]):
     specs.append(dict(stream="relu_1bit", family=fams[(i + k) % 4], pre=("quantized_relu", dict(bits=1, integer=integer)),
                       src=("s", 6, 3), one_hot=True, cin=1 + i % 2, n_in=[3, 2, 4][i % 3],
@@ -498,7 +498,7 @@ def gen_specs(rng, tier):
          ("conv1d", 8, 4, 8, (1, 1)), ("conv2d", 8, 2, 2, (1, 1))]
   graw = ["allmin", "allmax", "allmin", "random", "allmax", "allmin", "random", "allmin", "allmax", "random"]
   gwk = ["fixed40", "fixed40", "fixed", "fixed", "fixed40", "ternary", "po2", "fixed40", "fixed", "fixed40"]
-  k = int(rng.integers(0, 3))
+  k = off % 3
   for i, (fam, cin, groups, filters, ks) in enumerate(grp):
     specs.append(dict(stream="grouped", family=fam, pre=[None, "bits", "relu"][(i + k) % 3], cin=cin, ksize=ks,
                       # (a bias adder adds one integer bit of head-room: the saturated kernels come without bias so that
@@ -1038,7 +1038,11 @@ def run(run: core.Run, tier: str):
       "numpy-scalar / int forms), every other estimator model additionally for two zero-excluding ranges; measured on the "
       "exact worst-case corner of every output element (from the real layer's impulse responses); "
       "analyze_accumulator_from_sample(conservative and sampled) on batches whose first sample spans / does not span the batch range, "
-      "with one and with two quantized layers; inputs: all-max, all-min, sign-aligned and anti-aligned with "
+      "with one and with two quantized layers; ONE-BIT quantized_relu (integer 0..3; only (1,1) is the 0/1 and-gate operand) "
+      "as QActivation, as activation of a first layer (attribute / separate layer) and as kernel quantizer, with one-hot "
+      "inputs; GROUPED QConv1D / QConv2D (groups 2, 3, 4; cin / groups = 1 and > 1; fan-in a power of two and not; kernels "
+      "saturated at the most negative / largest code, bias-free, and random kernels); "
+      "inputs: all-max, all-min, sign-aligned and anti-aligned with "
       "each output channel's effective kernel, random lattice points; non-trivial = distinct (stream, family, "
       "weight/bias/activation quantizers, kernel shape); every tensor value is judged by Lean Val on the type "
       "the REAL QTools reported")
